@@ -181,6 +181,37 @@ pub fn put_res<K: SimKey>(r: PutResult<K, TV>) -> Val {
 /// C12's structural clause, checked incidentally on every PutResult the library produces:
 /// the crate's `==` must agree with a structural comparison on the value itself.
 fn structural_check<K: SimKey>(r: &PutResult<K, TV>) {
+    // payloads whose own equality is not reflexive: "equal exactly when the payloads are equal"
+    // makes such a result unequal to itself, even when both sides are the same object
+    fn same<T: PartialEq>(a: &T, b: &T) -> bool {
+        a == b
+    }
+    let nan = f64::NAN;
+    let (refl_broken, what) = match r {
+        PutResult::Put => (false, "Put"),
+        PutResult::Update(_) => {
+            let n: PutResult<u32, f64> = PutResult::Update(nan);
+            let one: PutResult<u32, f64> = PutResult::Update(1.0);
+            (same(&n, &n) || !same(&one, &one), "Update(NaN)")
+        }
+        PutResult::Evicted { .. } => {
+            let n: PutResult<u32, f64> = PutResult::Evicted { key: 1, value: nan };
+            let one: PutResult<u32, f64> = PutResult::Evicted { key: 1, value: 1.0 };
+            (same(&n, &n) || !same(&one, &one), "Evicted{value: NaN}")
+        }
+        PutResult::EvictedAndUpdate { .. } => {
+            let n: PutResult<u32, f64> = PutResult::EvictedAndUpdate { evicted: (1, 1.0), update: nan };
+            let m: PutResult<u32, f64> = PutResult::EvictedAndUpdate { evicted: (1, nan), update: 1.0 };
+            (same(&n, &n) || same(&m, &m), "EvictedAndUpdate{.. NaN ..}")
+        }
+    };
+    if refl_broken {
+        world::report(
+            "C12",
+            "putresult_structural",
+            format!("PutResult::{} compares equal to itself although its payload is not equal to itself (or a plain payload compares unequal)", what),
+        );
+    }
     // `K: Eq` is a user-code call point; keep this cheap and only for payload-free variants plus
     // a self comparison of the value payload (TV's PartialEq is not a call point).
     match r {
